@@ -86,9 +86,12 @@ class Models:
     # (VInt, usize) are still to come; ops are applied to each base item in order.
     def to_seqs(self, I, st, it):
         """list of (state, seq data) for an iterator value, or None"""
+        z = VInt(Form.const(0), 'usize')
+        if isinstance(it, VAdt) and self.facts.types.get(it.ty, {}).get('def', '').endswith('ops::Range') and it.single() == 0:
+            a, b = it.variants[0]
+            it = VOpaque(it.ty, 'range', (a, b))
         if not isinstance(it, VOpaque):
             return None
-        z = VInt(Form.const(0), 'usize')
         if it.tag == 'seq':
             return [(st, it.data)]
         if it.tag == 'iter':
@@ -681,23 +684,39 @@ class Models:
             return c.I.unknown_bool()
 
         # ---- floats
+        def fcls_of(c, v):
+            """class set of float v on this path: its own, refined by the classification tests already taken on the
+            same expression (the tests refine a temporary copy; the path remembers them by expression)"""
+            cls = set(v.cls)
+            if v.expr is not None:
+                for (tst, truth) in c.st.notes.get('fpath', ()):
+                    if isinstance(tst, tuple) and len(tst) == 2 and tst[1] == v.expr and tst[0] in ('is_inf', 'is_nan', 'is_fin'):
+                        one = {tst[0][3:]}
+                        cls = (cls & one) if truth else (cls - one)
+            return cls
+
+        def fclass_test(c, which):
+            v = c.args[0]
+            if not isinstance(v, VFloat):
+                return c.I.unknown_bool()
+            cls = fcls_of(c, v)
+            if cls == {which}:
+                return VBool(True)
+            if which not in cls:
+                return VBool(False)
+            return c.I.unknown_bool(('fcls', M.arg_loc(c, 0), v, which))
+
         @reg('core::f64::<impl f64>::is_infinite')
         def is_inf(c):
-            v = c.args[0]
-            if v.cls == frozenset(('inf',)):
-                return VBool(True)
-            if 'inf' not in v.cls:
-                return VBool(False)
-            return c.I.unknown_bool(('fcls', M.arg_loc(c, 0), v, 'inf'))
+            return fclass_test(c, 'inf')
+
+        @reg('core::f64::<impl f64>::is_finite')
+        def f_finite(c):
+            return fclass_test(c, 'fin')
 
         @reg('core::f64::<impl f64>::is_nan')
         def is_nan(c):
-            v = c.args[0]
-            if v.cls == frozenset(('nan',)):
-                return VBool(True)
-            if 'nan' not in v.cls:
-                return VBool(False)
-            return c.I.unknown_bool(('fcls', M.arg_loc(c, 0), v, 'nan'))
+            return fclass_test(c, 'nan')
 
         @reg('std::f64::<impl f64>::round')
         def fround(c):
@@ -1108,6 +1127,16 @@ class Models:
             it = M.facts.types.get(idx.ty, {}) if isinstance(idx, VAdt) else {}
             nm = it.get('def', '')
             st = c.st
+            if (c.c.get('args') or [''])[0] == 'str' and isinstance(idx, VAdt):
+                # slicing a str panics when a bound falls inside a multi-byte character
+                ascii_only = s.elem[0] == 'cbytes' and all(b < 128 for b in s.elem[1]) or (s.elem[0] == 'bytes' and s.elem[2] < 128)
+                for b in idx.variants.get(0, ()):
+                    if not isinstance(b, VInt):
+                        continue
+                    lo_, hi_ = st.num.rng(b.form)
+                    ok = ascii_only or (lo_ == hi_ == 0) or st.num.eq0(b.form.sub(s.len))
+                    M.pcall(c.I, st, c.body, c.bbi, c.t, 'str slice bound on a char boundary', ok,
+                            f"bound {b.form!r} in [{lo_}, {hi_}] of a str that may contain multi-byte characters")
             if isinstance(idx, VInt):
                 ok = st.num.le0(idx.form.sub(s.len).addc(1)) and st.num.ge0(idx.form)
                 M.pcall(c.I, st, c.body, c.bbi, c.t, 'slice index out of bounds', ok, f"index {idx.form!r} len {s.len!r}")
@@ -1211,6 +1240,51 @@ class Models:
                         out.append((s3, VOpaque(c.dty, 'seq', (base, end, end, ops))))
             return out
 
+        @reg('std::iter::Iterator::try_for_each')
+        def itry_for_each(c):
+            itref, f = c.args
+            it = M.deref(c.I, c.st, itref)
+            seqs = M.to_seqs(c.I, c.st, it)
+            if seqs is None:
+                raise AnalysisIncomplete(f"try_for_each on unknown iterator {it!r}")
+            t = M.facts.types.get(c.dty, {})
+            dn = t.get('def', '')
+            if not (dn.endswith('result::Result') or dn.endswith('option::Option')):
+                raise AnalysisIncomplete(f"try_for_each returning {c.dty}")
+            is_res = dn.endswith('result::Result')
+            cont = 0 if is_res else 1            # Ok / Some: go on
+            out = []
+            for (s2, seq) in seqs:
+                done = []
+
+                def step(s3, acc, item):
+                    nxt = []
+                    for (s4, r) in c.I.call_closure(s3, f, [item]):
+                        if not isinstance(r, VAdt):
+                            raise AnalysisIncomplete('try_for_each: closure result')
+                        for vi, fs in r.variants.items():
+                            s5 = s4 if len(r.variants) == 1 else s4.copy()
+                            if vi == cont:
+                                nxt.append((s5, acc))
+                            else:
+                                done.append((s5, VAdt(c.dty, {vi: fs})))
+                    return nxt
+                rem_lo, rem_hi = s2.num.rng(seq[2].form.sub(seq[1].form))
+                if rem_hi > 12:
+                    # unbounded count: no call at all, or the closure run on a generic item (its obligations are
+                    # recorded, its early exits returned); the effects of repeated calls are not accumulated
+                    out.append((s2.copy(), VAdt(c.dty, {cont: (UNIT,)})))
+                    k = c.I.fresh_int(s2, 'usize', 'it_i', 0)
+                    for s3 in c.I.assume(s2.copy(), ('and', ('cmp', 'ge', k.form, seq[1].form), ('cmp', 'lt', k.form, seq[2].form)), True):
+                        for (s4, item) in M.seq_items(c.I, s3, seq, k.form):
+                            for (s5, _) in step(s4, UNIT, item):
+                                out.append((s5, VAdt(c.dty, {cont: (UNIT,)})))
+                else:
+                    for (s3, _) in M.seq_unroll(c.I, s2, seq, UNIT, step):
+                        out.append((s3, VAdt(c.dty, {cont: (UNIT,)})))
+                out.extend(done)
+            return out
+
         @reg('std::iter::Iterator::sum', 'std::iter::Iterator::for_each')
         def isum(c):
             it = c.args[0]
@@ -1308,6 +1382,40 @@ class Models:
                 raise AnalysisIncomplete(f"any/all/position on {it!r}")
             name = c.c['decl'].rsplit('::', 1)[1]
             st = c.st
+            # a short sequence of known length: evaluate the predicate item by item, in order (exact, keeps the
+            # correlation between the position found and what the predicate established about that item)
+            if all(sq[1].form.is_const() and sq[2].form.is_const() and sq[2].form.c - sq[1].form.c <= 16 for _, sq in seqs):
+                out = []
+                for (s2, seq) in seqs:
+                    p0, p1 = seq[1].form.c, seq[2].form.c
+                    cur = [s2]
+                    for i in range(p0, p1):
+                        nxt = []
+                        for s3 in cur:
+                            for (s4, item) in M.seq_items(c.I, s3, seq, Form.const(i)):
+                                for (s5, r) in c.I.call_closure(s4, f, [item]):
+                                    if not isinstance(r, VBool):
+                                        raise AnalysisIncomplete('predicate does not return a bool')
+                                    if r.val is None:
+                                        p = c.I.bool_pred(r)
+                                        ts = c.I.assume(s5.copy(), p, True) if p is not None else [s5.copy()]
+                                        fs = c.I.assume(s5.copy(), p, False) if p is not None else [s5]
+                                    else:
+                                        ts, fs = ([s5], []) if r.val else ([], [s5])
+                                    rel = c.I.cint(i - p0, 'usize')
+                                    if name == 'position':
+                                        out.extend((t, M.some(c.dty, rel)) for t in ts)
+                                        nxt.extend(fs)
+                                    elif name == 'any':
+                                        out.extend((t, VBool(True)) for t in ts)
+                                        nxt.extend(fs)
+                                    else:
+                                        out.extend((t, VBool(False)) for t in fs)
+                                        nxt.extend(ts)
+                        cur = nxt
+                    for s3 in cur:
+                        out.append((s3, M.none(c.dty) if name == 'position' else VBool(name == 'all')))
+                return out
             hit, miss = [], []          # (state, index) in which the predicate holds / fails for the item at that index
             cands = []
             for (s2, seq) in seqs:
